@@ -21,7 +21,7 @@ WHAT = {
  "C16": "stream churn at the reclamation threshold vs scanning writers + role matrix, freed-set monitor",
  "C17": "zero live blocks after every role-matrix execution; histories × teardown orders; churn 10²,10³ cycles",
  "C18": "solo-run scenarios: every (schedule prefix, freeze point), incl. frozen structural operations",
- "C19": "12 types × 4 payload classes × closure classes × {Send,Sync}",
+ "C19": "12 types × 4 payload classes × closure classes × {Send,Sync} + 2 constructors × 3 wait-strategy classes",
 }
 def load(d, p):
     f = os.path.join(d, p + ".json")
